@@ -6,6 +6,7 @@ import pypose as pp
 from symx import terms as T
 from symx.engine import det_terms
 from .common import *
+from symx.engine import rat
 
 EXPLAIN = ("EKF.forward and UKF.forward run under symx on a linear system x'=Ax+Bu+c1, y=Cx'+Du+c2 written as an NLS subclass, with "
            "symbolic A,B,C,D,c1,c2,x,u,y and symbolic SPD P,Q,R (Cholesky-parametrised); the linearisation is the real "
@@ -334,9 +335,70 @@ def case_pf_cov(H):
         H.prove(name + '/definition', hyp, z3.And([a == b for a, b in zip(Pc, ref)]), key='C13/PF/cov')
 
 
+def case_pf_forward_variance(H, f32=False):
+    """PF.forward end to end (sampling, likelihood weights, resampling, mean, covariance) on a scalar linear system under the
+    STANDARD MODEL of floating-point arithmetic (every arithmetic result times (1 + delta), |delta| <= u): the returned variance is
+    non-negative for every prior mean |x| <= 1e8 (1e4 in float32) and all rounding errors.  The random draws are whatever the
+    generator produced during the run (they select the path); the obligation quantifies over x and the deltas."""
+    name = 'C13/PF/forward/variance>=0%s' % ('/float32' if f32 else '')
+    dt = torch.float32 if f32 else DT
+    u = rat(torch.finfo(dt).eps) / 2
+    bound = 10000 if f32 else 100000000
+
+    class Lin(pp.module.NLS):
+        def state_transition(self, state, input, t=None):
+            return 0.9 * state + input
+
+        def observation(self, state, input, t=None):
+            return state
+
+    def consts():
+        c = lambda v: torch.tensor(v, dtype=dt)
+        return c([[0.01]]), c([[0.01]]), c([[0.01]]), c([1.4]), c([0.1])
+
+    def prog(m):
+        m.ctx.round_u = u
+        x = torch.tensor([1.5], dtype=dt)
+        xs = m.symbolic(x, 'x')
+        m.ctx.assume += [xs[0] >= -bound, xs[0] <= bound]
+        P, Q, R, y, uu = consts()
+        torch.manual_seed(4)
+        xo, Po = pp.module.PF(Lin(), Q, R, particles=2)(x, y, uu, P)
+        return m.full_terms(Po)[0], xs
+
+    def replay(model):
+        x0 = float(model.get('x0', bound / 2))
+        P, Q, R, y, uu = consts()
+        worst, wx = 0.0, None
+        for f in (1.0, -1.0, 0.5, 0.25, 0.9):
+            for seed in range(6):
+                torch.manual_seed(seed)
+                xv = torch.tensor([max(-bound, min(bound, x0 * f))], dtype=dt)
+                try:
+                    xo, Po = pp.module.PF(Lin(), Q, R, particles=200)(xv, xv * 0.9 + 0.1, uu, P)
+                except IndexError:
+                    continue
+                v = Po.double().reshape(-1)[0].item()
+                if -v > worst:
+                    worst, wx = -v, xv.item()
+        return worst > 0, 'PF.forward returned a negative variance %.3g at prior mean x=%s (%s)' % (-worst, wx, str(dt))
+
+    def on_raise(ctx, e):
+        # resampling index out of range: cumsum(q)[-1] < r for a draw r in [0, 1) - excluded for the draws of this run if infeasible
+        H.absorb(ctx)
+        H.prove('%s/raising-path%d-infeasible' % (name, H.paths), H.hyps_of(ctx) + [z3.And(d <= u, d >= -u) for d in ctx.deltas], z3.BoolVal(False),
+                key='C13/PF/forward', timeout=(20 if H.quick else 60))
+
+    for ctx, (Pv, xs) in run_paths(H, name, prog, max_paths=16, raised=on_raise, f32=f32):
+        # focused: the variance term depends on x and the rounding variables only
+        hyp = list(ctx.assume) + [z3.And(d <= u, d >= -u) for d in ctx.deltas]
+        H.prove('%s/path%d' % (name, H.paths), hyp, Pv >= 0, replay=replay, key='C13/PF/forward', timeout=(30 if H.quick else 120))
+        H.notes.append('%s path %d: %d rounding variables' % (name, H.paths, len(ctx.deltas)))
+
+
 def run(H):
     H.assumptions += ['exact real arithmetic', 'P, Q, R symmetric positive definite (Cholesky-parametrised)',
-                      'pinv of an invertible matrix is its inverse (LAPACK contract)', 'PF convergence at the Monte-Carlo rate is statistical: outside']
+                      'pinv of an invertible matrix is its inverse (LAPACK contract)', 'PF convergence at the Monte-Carlo rate is statistical: outside', 'PF.forward variance: standard model of floating-point arithmetic (|delta| <= u per arithmetic operation; no under/overflow)']
     H.bounds += ['state dim n<=2, input dim 1, observation dim p=1 (quick) / p<=2 (thorough); one filter step (posterior from an arbitrary prior: '
                  'an inductive step over filter runs)', 'UKF k in {default 3-n, 1, 0.5}', 'UKF on nonlinear systems (positive semidefiniteness for n >= 4 with explicit k, where 3-n < 0) is NOT covered: the symbolic Cholesky factor of a 4x4 predicted covariance is beyond the solver (tried; every obligation unknown)']
     cases = [('EKF', 1, 1, 1, None), ('EKF', 2, 1, 1, None), ('EKF', 2, 1, 2, None), ('UKF', 1, 1, 1, None), ('UKF', 1, 1, 1, 1), ('UKF', 2, 1, 1, None)]
@@ -348,7 +410,7 @@ def run(H):
         except Exception as e:
             import traceback; traceback.print_exc()
             H.engine_error('%s n=%d p=%d' % (filt, n, p), e)
-    for f in ((lambda H: case_ekf_nonlinear(H, 1)), case_pf_cov, case_ukf_history) + (() if H.quick else ((lambda H: case_ekf_nonlinear(H, 2)),)):
+    for f in ((lambda H: case_ekf_nonlinear(H, 1)), case_pf_cov, case_pf_forward_variance, (lambda H: case_pf_forward_variance(H, True)), case_ukf_history) + (() if H.quick else ((lambda H: case_ekf_nonlinear(H, 2)),)):
         try:
             f(H)
         except Exception as e:
